@@ -13,22 +13,22 @@ def handle (inp out : Sexp) : CaseResult :=
     | some is, some cuts =>
       match out with
       | .list [.atom "det", .list (.atom "new" :: nw), .list [.atom "to", a], .list [.atom "text", .str t],
-               .list (.atom "same" :: ss), .list [.atom "child", c], .list [.atom "concat", cl]] =>
-        match nw.mapM decInstr, ss.mapM decBool with
-        | some fresh, some sames =>
+               .list (.atom "same" :: ss), .list [.atom "child", c], .list [.atom "concat", cl], .list [.atom "keymm", km]] =>
+        match nw.mapM decInstr, ss.mapM decBool, km.asNat? with
+        | some fresh, some sames, some keymm =>
           let tbl := is ++ fresh
           match decPids tbl a, decPids tbl cl with
           | some toL, some concatL =>
             let p := fromInstructions is
             let pc := buildChunks (chunksAt is cuts)
-            let agree := is.all Instr.projOk && fresh.isEmpty && decide (toInstructions p = toL) &&
+            let agree := is.all Instr.projOk && keymm == 0 && fresh.isEmpty && decide (toInstructions p = toL) &&
               print p == t && decide (toInstructions pc = concatL)
             let childSkipped := c == .atom "skipped"
             let childOk := c == .atom "true" || childSkipped
             let listingOk := checkListing is toL
             let concatOk := checkListing is concatL
             let detOk := sames.all id && sames.length == 8
-            let specOk := listingOk && concatOk && detOk && childOk
+            let specOk := listingOk && concatOk && detOk && childOk && keymm == 0
             -- non-trivial: at least two distinct keys in some definition kind, or a redefinition
             let nontrivial := Kind.defs.any fun k =>
               let ks := keys (ofKind k is)
@@ -36,12 +36,12 @@ def handle (inp out : Sexp) : CaseResult :=
             let maxDistinct := (Kind.defs.map fun k => (keys (ofKind k is)).eraseDups.length).foldl max 0
             { agree, specOk, nontrivial,
               tags := histTags is ++ [s!"maxkeys{min maxDistinct 6}", s!"cuts{cuts.length}"] ++
-                (if childSkipped then ["child-skipped"] else if childOk then ["child-same"] else ["child-DIFFERS"]),
+                (if keymm == 0 then [] else ["key-mismatch"]) ++ (if childSkipped then ["child-skipped"] else if childOk then ["child-same"] else ["child-DIFFERS"]),
               detail := s!"history={showListing is} cuts={cuts} | model: to={showListing (toInstructions p)} " ++
                 s!"concat={showListing (toInstructions pc)} | impl: to={showListing toL} concat={showListing concatL} " ++
-                s!"same={sames} child={c} textEq={print p == t} listingOk={listingOk} concatOk={concatOk}" }
+                s!"same={sames} child={c} textEq={print p == t} listingOk={listingOk} concatOk={concatOk} keyMismatches={keymm}" }
           | _, _ => { agree := false, specOk := true, nontrivial := false, tags := ["undecodable-output"], detail := s!"impl={out}" }
-        | _, _ => { agree := false, specOk := true, nontrivial := false, tags := ["undecodable-output"], detail := s!"impl={out}" }
+        | _, _, _ => { agree := false, specOk := true, nontrivial := false, tags := ["undecodable-output"], detail := s!"impl={out}" }
       | _ => { agree := false, specOk := true, nontrivial := false, tags := ["undecodable-output"], detail := s!"impl={out}" }
     | _, _ => .bad "undecodable history"
   | _ => .bad s!"undecodable input {inp}"
